@@ -162,9 +162,7 @@ def c05Failure (text : Bytes) (exp : Idl) (tags : List String) (o : Obs) : Optio
       | some r => some r
       | none =>
         if !docsEqual exp.members t.members then some "wrong-member-doc"
-        else if t.doc != exp.doc then
-          (if tags.contains "ig1=nl" || tags.contains "ig1=comment" then some "interface-doc-depends-on-layout-after-keyword"
-           else some "wrong-interface-doc")
+        else if t.doc != exp.doc then some "wrong-interface-doc"
         else if t.description != text then some "description-not-verbatim"
         else if !sub then some "sublists-inconsistent-with-members"
         else none
